@@ -321,6 +321,7 @@ func init() {
 				it.Args["first"] = 1 // the crash must be able to fall between two parallel check groups
 				if tier != "thorough" {
 					it.Opts.MaxSeconds = 40
+					it.Args["crashes"] = 1 // the second crash is C09/C10's business in the quick tier
 				}
 				items = append(items, it)
 			}
